@@ -286,9 +286,11 @@ def trace_events(trace, case_sensitive=False):
             else:
                 arg = ""
             lab = _fold(lab.strip(), case_sensitive) if op in ("MACRO", "FUNCTION") else ""
+            if op in ("MACRO", "FUNCTION") and ("{" in lab or (not lab and "{" in arg)):
+                lab, arg = "?", ""                    # name built by {symbol} expansion: not readable from the text
             ev.append({"a": "STMT", "op": op if op in ("INCLUDE", "SECTION", "ENDSECTION", "MACRO", "FUNCTION") else "",
                        "lab": lab, "arg": arg, "tagd": e["tagd"], "rec0": rec0, "rec": e["rec"], "ifasm": e["ifasm"],
-                       "derr": e["errs"] - errs0, "line": e["line"]})
+                       "derr": e["errs"] - errs0, "line": e["line"], "opname": op})
             rec0 = e["rec"]
             errs0 = e["errs"]
             split = None
